@@ -472,11 +472,25 @@ func run(c *mon.Ctx) {
 		q, err := packet.FromBytes(b)
 		c.Eval(1)
 		if n != 188 {
-			if err == nil {
-				c.Fail("validate:FromBytes-length", fmt.Sprintf("FromBytes accepted a slice of %d bytes", n), wit{Op: "FromBytes", Arg: fmt.Sprint(n)})
+			if err == nil || q != nil {
+				c.Fail("validate:FromBytes-length", fmt.Sprintf("FromBytes accepted a slice of %d bytes (error %v, packet returned: %v)", n, err, q != nil), wit{Op: "FromBytes", Arg: fmt.Sprint(n)})
 			}
 		} else if err != nil || q == nil {
 			c.Fail("validate:FromBytes-188", "FromBytes rejected a valid 188-byte slice", wit{Op: "FromBytes", Before: mon.Hex(b)})
+		}
+		// a slice of the wrong length is no packet whatever its first bytes look like: headers that validation
+		// would refuse (sync byte, reserved scrambling control 01, reserved adaptation_field_control 00) and random ones
+		if n != 188 && n > 3 {
+			for k, h := range [][2]byte{{0x46, 0x10}, {0x47, 0x50}, {0x47, 0x00}, {0x00, 0x00}, {r.Byte(), r.Byte()}} {
+				w := append([]byte{}, b...)
+				w[0], w[3] = h[0], h[1]
+				qw, errw := packet.FromBytes(w)
+				c.Eval(1)
+				if errw == nil || qw != nil {
+					c.Fail("validate:FromBytes-length", fmt.Sprintf("FromBytes made a packet from a slice of %d bytes whose header bytes are sync=%#02x byte3=%#02x (error %v, packet returned: %v)", n, w[0], w[3], errw, qw != nil), wit{Op: "FromBytes", Arg: fmt.Sprintf("len %d header kind %d", n, k)})
+					break
+				}
+			}
 		}
 		if n == 0 {
 			// "no bytes" in its three spellings
@@ -496,7 +510,7 @@ func run(c *mon.Ctx) {
 			big[0], big[3] = 0x47, 0x10
 			q2, err2 := packet.FromBytes(big[:n])
 			c.Eval(1)
-			if n != 188 && (err2 == nil || q2 != nil && false) {
+			if n != 188 && (err2 == nil || q2 != nil) {
 				c.Fail("validate:FromBytes-length-with-spare-capacity", fmt.Sprintf("FromBytes accepted a slice of %d bytes (capacity %d)", n, capacity), wit{Op: "FromBytes", Arg: fmt.Sprintf("len %d cap %d", n, capacity)})
 			}
 			if n == 188 && (err2 != nil || q2 == nil || !bytes.Equal(q2[:], big[:188])) {
@@ -514,15 +528,18 @@ func run(c *mon.Ctx) {
 		ns = append(ns, 188+65536, 188+2*65536, 65536, 65535, 65537, 188+1<<20)
 		buf := make([]byte, 188+1<<20)
 		r.Fill(buf[:4096])
-		buf[0], buf[3] = 0x47, 0x10
-		for _, n := range ns {
-			if n == 188 {
-				continue
-			}
-			c.Eval(1)
-			if q, err := packet.FromBytes(buf[:n]); err == nil || q != nil {
-				c.Fail("validate:FromBytes-length", fmt.Sprintf("FromBytes accepted a slice of %d bytes", n), wit{Op: "FromBytes", Arg: fmt.Sprint(n)})
-				break
+	headers:
+		for _, h := range [][2]byte{{0x47, 0x10}, {0x48, 0x10}, {0x47, 0x40}, {0x47, 0x0f}} {
+			buf[0], buf[3] = h[0], h[1]
+			for _, n := range ns {
+				if n == 188 {
+					continue
+				}
+				c.Eval(1)
+				if q, err := packet.FromBytes(buf[:n]); err == nil || q != nil {
+					c.Fail("validate:FromBytes-length", fmt.Sprintf("FromBytes made a packet from a slice of %d bytes (sync=%#02x byte3=%#02x, error %v, packet returned: %v)", n, h[0], h[1], err, q != nil), wit{Op: "FromBytes", Arg: fmt.Sprint(n)})
+					break headers
+				}
 			}
 		}
 		c.Class("frombytes/long")
